@@ -93,11 +93,53 @@ def local_ordinals(func):
     return func['_lord'], func['_lname']
 
 
+class _ContentNames:
+    def __init__(self, a, func):
+        self.a, self.func = a, func
+
+    def get(self, vid, default=None):
+        if vid is None or vid == -1:
+            return 'L?'
+        return local_container_name(self.a, vid, self.func)
+
+
+def local_container_name(a, vid, func):
+    """a local container is named by what its cells hold (inputs of the values written into them),
+    not by its name or declaration position: L{W2} is 'the local vector the third wire value is read
+    into'.  Stable under renaming, reordering of declarations and added locals."""
+    cache = a.__dict__.setdefault('_lcn', {})
+    if vid in cache:
+        return cache[vid]
+    leaves = set()
+    for nid, ev in a.all_events('write'):
+        loc = ev[1]
+        base = loc
+        depth = 0
+        while isinstance(base, tuple) and base[0] in ('e', 'f'):
+            base = base[1]
+            depth += 1
+        if depth and isinstance(base, tuple) and base[0] == 'v' and base[1] == vid:
+            leaves |= leafnames(a, ev[2], func)
+    for nid, ev in a.all_events('rcv'):
+        loc = ev[1]
+        base = loc
+        depth = 0
+        while isinstance(base, tuple) and base[0] in ('e', 'f'):
+            base = base[1]
+            depth += 1
+        if depth and isinstance(base, tuple) and base[0] == 'v' and base[1] == vid:
+            leaves |= leafnames(a, ev[2], func)
+    name = 'L{%s}' % ','.join(sorted(leaves))
+    cache[vid] = name
+    return name
+
+
 def container_name(a, t, func):
     """stable name of the container a size() term speaks about"""
     T = a.T
     pidx = {p['n']: i for i, p in enumerate(func.get('params', []))}
     lord, lname = local_ordinals(func)
+    lord = _ContentNames(a, func)
     for _ in range(20):
         pn = pathname(a, t, pidx)
         if pn is not None:
@@ -111,17 +153,17 @@ def container_name(a, t, func):
             while isinstance(loc, tuple) and loc[0] in ('e', 'f'):
                 loc = loc[1]
             if isinstance(loc, tuple) and loc[0] == 'v':
-                return 'L%d' % lord.get(loc[1], -1)
+                return lord.get(loc[1], -1)
             if isinstance(loc, tuple) and loc[0] == 'm':
                 return 'this.' + loc[1]
             return 'L?'
         if n[0] == 'fresh':
             s = T.node(n[1])
             if s[0] == 'sym' and s[1] in lname:
-                return 'L%d' % lord.get(lname[s[1]], -1)
+                return lord.get(lname[s[1]], -1)
             return 'L?'
         if n[0] == 'local':
-            return 'L%d' % lord.get(n[2], -1)
+            return lord.get(n[2], -1)
         return 'X'
     return 'X'
 
@@ -219,6 +261,9 @@ def shape(a, t):
     modulus members are named, sizes and bit lengths are marked, everything else is 'expr'"""
     T = a.T
     n = T.node(t)
+    while n[0] == 'ix':          # "the element of the current iteration": same shape as the element
+        t = n[1]
+        n = T.node(t)
     o = n[0]
     if o == 'int':
         return 'int:%d' % n[1]
@@ -301,8 +346,6 @@ def covers(cur, ref):
         if cur[0] != ref[0]:
             return False
         return covers(cur[1:], ref[1:])
-    if cur[0] != ref[0]:
-        return False
     # quantified facts: the index range the loop covers must be the recorded one
     ccov = [x for x in cur if isinstance(x, tuple) and len(x) == 2 and x[0] == 'cov']
     rcov = [x for x in ref if isinstance(x, tuple) and len(x) == 2 and x[0] == 'cov']
@@ -312,6 +355,12 @@ def covers(cur, ref):
         cur = tuple(x for x in cur if x not in ccov)
         ref = tuple(x for x in ref if x not in rcov)
     k = ref[0].split(':')[-1]
+    if k == 'if' and cur[0].split(':')[-1] != 'if' and cur[0].startswith('all:') == ref[0].startswith('all:'):
+        # an unconditional check covers the same check under a condition
+        inner = (cur[0].split(':')[-1],) + tuple(cur[1:])
+        return covers(inner, ref[2])
+    if cur[0] != ref[0]:
+        return False
     if k == 'if':
         return cur[1] == ref[1] and covers(cur[2], ref[2])
     if k in ('eq', 'ne'):
